@@ -374,6 +374,25 @@ for (cyc, f, dt) in cfgs:
     evaluations += 1
     if o is not pre or not np.allclose(pre[0, n + 3:], 1.0):
         chk.violation("tf:prealloc", "preallocated timetraces are not accumulated in place", {"dt": dt})
+    # ... also when the caller's array is a window of a longer record, a Fortran-ordered or a strided array: it is the
+    # caller's array that receives the echoes (compared with the result of a call without `timetraces=`)
+    ref_ = model.transfer_func_to_timetraces(np.array([[1.0], [0.5]], complex), np.array([kmin * dt, (kmin + 1) * dt]),
+                                             Time(0.0, dt, length), tt, freq, np.fft.rfft(tb), t0)
+    for lay_ in ("window of a longer record", "fortran", "every other row"):
+        base_ = {"window of a longer record": np.zeros((2, length + 7), complex), "fortran": np.zeros((2, length), complex, order="F"),
+                 "every other row": np.zeros((4, length), complex)}[lay_]
+        mine_ = {"window of a longer record": base_[:, 3:3 + length], "fortran": base_, "every other row": base_[::2]}[lay_]
+        try:
+            o_ = model.transfer_func_to_timetraces(np.array([[1.0], [0.5]], complex), np.array([kmin * dt, (kmin + 1) * dt]),
+                                                   Time(0.0, dt, length), tt, freq, np.fft.rfft(tb), t0, timetraces=mine_)
+            err_ = None
+        except Exception as e_:      # noqa: BLE001  (a layout the library refuses is not a wrong answer)
+            o_, err_ = None, type(e_).__name__
+        evaluations += 1
+        chk.count(prealloc_layout=lay_ + (": refused " + err_ if err_ else ""))
+        if err_ is None and not (np.allclose(mine_, ref_, rtol=0, atol=1e-12) and np.allclose(np.asarray(o_), ref_, rtol=0, atol=1e-12)):
+            chk.violation("tf:prealloc-layout", f"the caller's timetraces array ({lay_}) does not receive the echoes that a call without it returns",
+                          {"dt": dt, "layout": lay_, "max_abs_in_callers_array": float(np.max(np.abs(mine_))), "max_abs_expected": float(np.max(np.abs(ref_)))})
 
 # sweep of the toneburst configurations (sampling step, centre frequency, cycle count, padding options): every valid
 # make_toneburst2 output must be accepted and its echoes placed; the SAME delays array is handed over twice (a second
